@@ -269,6 +269,26 @@ let dres_str = function
 let eerr_str = function EAtomTooLarge -> "AtomTooLarge" | EBinaryTooLarge -> "BinaryTooLarge" | EListTooLarge -> "ListTooLarge"
   | EMapTooLarge -> "MapTooLarge" | ETupleTooLarge -> "TupleTooLarge" | EReferenceTooLarge -> "ReferenceTooLarge"
 
+(* the atom order a distribution header carries (all entries new, as the library's writer emits them) *)
+let order_of_header (data : n list) : n list list =
+  match data with
+  | _ :: tag :: n :: r when int_of_n tag = 68 && int_of_n n > 0 ->
+      let nn = int_of_n n in
+      let flags_len = nn / 2 + 1 in
+      let rec drop k l = if k = 0 then l else drop (k - 1) (List.tl l) in
+      let flags = List.filteri (fun i _ -> i < flags_len) r in
+      let long = (int_of_n (List.nth flags (flags_len - 1))) land (if nn mod 2 = 0 then 1 else 16) <> 0 in
+      let rec entries k l acc = if k = 0 then List.rev acc else
+        (match l with
+         | _idx :: r1 ->
+             let (alen, r2) = if long then (match r1 with a :: b :: r2 -> (int_of_n a * 256 + int_of_n b, r2) | _ -> failwith "hdr")
+                              else (match r1 with a :: r2 -> (int_of_n a, r2) | _ -> failwith "hdr") in
+             let txt = List.filteri (fun i _ -> i < alen) r2 in
+             entries (k - 1) (drop alen r2) (txt :: acc)
+         | [] -> failwith "hdr") in
+      entries nn (drop flags_len r) []
+  | _ -> []
+
 let codec_case (line : string) : string =
   let op, rest = match String.index_opt line ' ' with
     | Some i -> String.sub line 0 i, String.sub line (i+1) (String.length line - i - 1) | None -> line, "" in
@@ -319,24 +339,7 @@ let codec_case (line : string) : string =
        | [ts; h] ->
            let terms = List.map (term_of_string cmp_owned) (Str.split (Str.regexp_string " | ") ts) in
            let data = bytes_of_hex h in
-           (* read the atom order off the header *)
-           let order = (match data with
-             | _ :: tag :: n :: r when int_of_n tag = 68 && int_of_n n > 0 ->
-                 let nn = int_of_n n in
-                 let flags_len = nn / 2 + 1 in
-                 let rec drop k l = if k = 0 then l else drop (k - 1) (List.tl l) in
-                 let flags = List.filteri (fun i _ -> i < flags_len) r in
-                 let long = (int_of_n (List.nth flags (flags_len - 1))) land (if nn mod 2 = 0 then 1 else 16) <> 0 in
-                 let rec entries k l acc = if k = 0 then List.rev acc else
-                   (match l with
-                    | _idx :: r1 ->
-                        let (alen, r2) = if long then (match r1 with a :: b :: r2 -> (int_of_n a * 256 + int_of_n b, r2) | _ -> failwith "hdr")
-                                         else (match r1 with a :: r2 -> (int_of_n a, r2) | _ -> failwith "hdr") in
-                        let txt = List.filteri (fun i _ -> i < alen) r2 in
-                        entries (k - 1) (drop alen r2) (txt :: acc)
-                    | [] -> failwith "hdr") in
-                 entries nn (drop flags_len r) []
-             | _ -> []) in
+           let order = order_of_header data in
            (match encode_multi order terms with
             | HOk b -> if b = data then "match" else "MISMATCH model=" ^ hex_of_bytes b
             | HErr e -> "model-err " ^ eerr_str e
@@ -679,6 +682,83 @@ let serde_case (line : string) : string =
   | "de" -> show_vopt (rde false f32_round t (term_of_string cmp_owned rest))
   | x -> failwith ("bad serde op " ^ x)
 
+(* ---- domain conn (C06, C07) ---- *)
+let split_on (sep : string) (s : string) : string list = Str.split_delim (Str.regexp_string sep) s
+let pid_of_term = function TPid p -> p | _ -> failwith "pid expected"
+let rd_sop (t : toks) : sop =
+  match next t with
+  | "send" -> let to_ = pid_of_term (rd_term cmp_owned t) in SSend (to_, rd_term cmp_owned t)
+  | "regsend" -> let from = pid_of_term (rd_term cmp_owned t) in let nm = bytes_of_hex (next t) in SRegSend (from, nm, rd_term cmp_owned t)
+  | "link" -> let a = pid_of_term (rd_term cmp_owned t) in let b = pid_of_term (rd_term cmp_owned t) in SLink (a, b)
+  | "unlink" -> let a = pid_of_term (rd_term cmp_owned t) in let b = pid_of_term (rd_term cmp_owned t) in SUnlink (a, b, n_of_dec (next t))
+  | "monitor" -> let a = pid_of_term (rd_term cmp_owned t) in let b = pid_of_term (rd_term cmp_owned t) in SMonitor (a, b, rd_term cmp_owned t)
+  | "demonitor" -> let a = pid_of_term (rd_term cmp_owned t) in let b = pid_of_term (rd_term cmp_owned t) in SDemonitor (a, b, rd_term cmp_owned t)
+  | x -> failwith ("bad send op " ^ x)
+let rec dedup_atoms (l : n list list) : n list list =
+  match l with [] -> [] | x :: r -> x :: dedup_atoms (List.filter (fun y -> y <> x) r)
+let any_order (op : sop) : n list list =
+  let (ctl, pl) = control_of op in
+  dedup_atoms (atoms_of ctl @ (match pl with Some m -> atoms_of m | None -> []))
+let conn_case (line : string) : string =
+  match split_on " ;; " line with
+  | [] -> failwith "empty"
+  | head :: steps ->
+    (match words head with
+     | ["conn"; cfgf; peerf; connect] ->
+        let negotiated = n_of_int ((int_of_string cfgf) land (int_of_string peerf)) in
+        let connected = connect = "1" in
+        let cfg = mk_cfg owned_arms [] [] in
+        let cs = ref [] and closed = ref false and st = ref rstate_init in
+        let out = ref [] and wrote = ref [] and hdr_mode = not (uses_pass_through negotiated) in
+        List.iter (fun step ->
+          let t = { l = words step } in
+          match next t with
+          | "P" -> cs := !cs @ List.map (fun h -> Data (bytes_of_hex h)) (String.split_on_char ',' (next t))
+          | "X" -> closed := true
+          | "R" ->
+              if not connected then out := "state" :: !out else
+              let (r, st'), cs' = receive (nat_of_int (List.length !cs + 2 + 1000)) cfg !st !cs in
+              (* frames split by the model's own deframer; one frame per read attempt *)
+              st := st'; cs := cs';
+              out := (match r with
+                | RMsg (m, pl) -> "ok " ^ show_cmsg m ^ " | " ^ (match pl with Some p -> term_str p | None -> "-")
+                | RFail -> "err"
+                | REof -> if !closed then "eof" else "timeout"
+                | RTooLarge -> "toolarge") :: !out
+          | "S" ->
+              let op = rd_sop t in
+              if not connected then out := "err state" :: !out else
+              (match send_frame negotiated (any_order op) op with
+               | Some f -> wrote := !wrote @ [f]; out := "ok" :: !out
+               | None -> out := "err err" :: !out)
+          | x -> failwith ("bad step " ^ x)) steps;
+        let w = if hdr_mode && !wrote <> [] then "HDR" else hex_of_bytes (List.concat !wrote) in
+        String.concat " ;; " (List.rev (("wrote=" ^ w) :: !out))
+     | "sendchk" :: cfgf :: peerf :: _ ->
+        (* model-only: the frames the implementation wrote in header mode, re-encoded with the atom order they carry *)
+        let negotiated = n_of_int ((int_of_string cfgf) land (int_of_string peerf)) in
+        let ops = List.filter_map (fun step -> match words step with "S" :: r -> Some (rd_sop { l = r }) | _ -> None) steps in
+        let wrote = (match List.rev steps with
+          | last :: _ when String.length last > 6 && String.sub last 0 6 = "wrote=" -> bytes_of_hex (String.sub last 6 (String.length last - 6))
+          | _ -> failwith "sendchk: no wrote=") in
+        let rec frames (l : n list) : n list list =
+          match l with
+          | [] -> []
+          | a :: b :: c :: d :: r ->
+              let len = ((int_of_n a * 256 + int_of_n b) * 256 + int_of_n c) * 256 + int_of_n d in
+              let body = List.filteri (fun i _ -> i < len) r in
+              let rec drop k l = if k = 0 then l else drop (k - 1) (List.tl l) in
+              if List.length body < len then failwith "sendchk: truncated frame" else body :: frames (drop len r)
+          | _ -> failwith "sendchk: truncated length" in
+        let ok_ops = List.filter (fun op -> frame_body negotiated (any_order op) op <> None) ops in
+        (try
+          let fs = frames wrote in
+          if List.length fs <> List.length ok_ops then Printf.sprintf "MISMATCH frames=%d ops=%d" (List.length fs) (List.length ok_ops) else
+          let bad = List.filteri (fun _ (op, body) -> frame_body negotiated (order_of_header body) op <> Some body) (List.combine ok_ops fs) in
+          if bad = [] then "match" else Printf.sprintf "MISMATCH %d of %d frames" (List.length bad) (List.length fs)
+        with Failure m -> "MISMATCH " ^ m)
+     | _ -> failwith "bad conn head")
+
 let () =
   let domain = if Array.length Sys.argv > 1 then Sys.argv.(1) else "" in
   let f = match domain with
@@ -691,6 +771,7 @@ let () =
     | "handshake" -> handshake_case
     | "elixir" -> elixir_case
     | "serde" -> serde_case
+    | "conn" -> conn_case
     | _ -> prerr_endline ("unknown domain " ^ domain); exit 2 in
   (try
     while true do
